@@ -106,6 +106,7 @@ def run(tier, seed, replay=None):
     if not chk.builds(model=False, harness=True, skeletons=True):
         return chk.finish()
     chk.proofs()
+    chk.proofs("Pool")       # borrow discipline of sync.Pool buffers: checker soundness on all paths, exclusive ownership
     chk.oblig("O_C14")
     chk.oblig("O_C14_pool")     # sync.Pool buffers: no use after Put on any path of any borrower
     ev = C.run_oblig("O_C14_eval")
